@@ -729,6 +729,28 @@ def gen_c13(rng: random.Random, cfgs: list[str]) -> dict:
 def sweep_c13(cfgs: list[str]):  # noqa: ANN201
     """The last clone of one side is closed (by an agent) at every cycle while k peers are
     blocked on the other side; earlier closes of non-last clones must wake nobody."""
+    # k receivers blocked, the one at the head is cancelled at cycle `at`, the only sender
+    # sends at cycle d (all alignments, in particular the same cycle) and closes at once:
+    # the remaining receivers must get the item before anybody sees EndOfStream
+    for cfg in cfgs:
+        for cap in (1, 2):
+            for k in (2, 3):
+                for at in range(1, 7):
+                    for d in range(max(1, at - 2), at + 3):
+                        for place in ("before", "after"):
+                            for mode in ("scope", "native-in-group"):
+                                actors = [
+                                    {"role": "R", "mode": mode if i == 0 else "scope",
+                                     "ops": [["recv", i, False]]}
+                                    for i in range(k)
+                                ] + [
+                                    {"role": "S", "mode": "scope",
+                                     "ops": [["send", d, True], ["close", 0, False]]},
+                                ]  # fmt: skip
+                                yield {"cfg": cfg, "cap": cap, "actors": actors,
+                                       "agents": [{"at": at, "place": place, "victim": 0}],
+                                       "spare_s": False, "spare_r": False}  # fmt: skip
+
     for cfg in cfgs:
         for cap in (0, 1):
             for place in ("before", "after"):
